@@ -86,14 +86,8 @@ def planeroute(run, fx):
     usv = d.f['params'][0]['n']
     routes = set()
     split = None
-    for b in d.blocks:
-        c = d.term_cond(b)
-        if c is None:
-            continue
-        for a, p in dom.atoms(d, c, True):
-            t = dom.norm(d, a, p)
-            if t[0] == usv and t[1] == '>' and t[2] == '65535':
-                split = (b, t)
+    if dom.edges_with(d, lambda f: f[0] == usv and dom.implies(f, (usv, '>', '65535'))):
+        split = True
     if split is None:
         run.violated('PLANEROUTE', 'DirectCmap plane split', d.where(), 'DirectCmap::operator[] no longer splits on usv > 0xFFFF')
     for e in calls_in(d):
@@ -257,11 +251,19 @@ def cmapbound(run, fx):
     st = [e for _, e in c.elements() if e['k'] == 'BinaryOperator' and e['op'] == '=' and c.render(c.N(e['c'][0])) == 'this->m_isBmpOnly']
     okdef = False
     if st:
-        rhs = c.strip_all_casts(st[0]['c'][1])
-        if rhs['k'] == 'UnaryOperator' and rhs['op'] == '!':
-            x = c.strip_all_casts(rhs['c'][0])
-            # the negated operand is the local that holds smp_subtable()'s result (the same one the format 12 fill is guarded by)
-            if x['k'] == 'DeclRefExpr' and x.get('vid') is not None:
+        # `!x`, `x == NULL`, `x == 0`, ... : one atomic fact  <the smp_subtable() result> == 0  (the local that holds the result is the
+        # one the format 12 fill is guarded by)
+        ats = dom.atoms(c, c.N(st[0]['c'][1]), True)
+        if len([a for a in ats if not (isinstance(a[0], dict) and a[0].get('k') == 'Inlined')]) == 1:
+            a, p = ats[0]
+            t = dom.norm(c, a, p)
+            x = c.strip_all_casts(a['c'][0]) if c.strip(a)['k'] == 'BinaryOperator' else c.strip_all_casts(a)
+            n_ = c.strip(a)
+            if n_['k'] == 'BinaryOperator':
+                x = c.strip_all_casts(n_['c'][0]) if c.strip_all_casts(n_['c'][1]).get('v') == 0 or c.is_null(n_['c'][1]) else c.strip_all_casts(n_['c'][1])
+            else:
+                x = c.strip_all_casts(n_)
+            if t[1] == '==' and t[2] == '0' and x['k'] == 'DeclRefExpr' and x.get('vid') is not None:
                 for _, e in c.elements():
                     if e['k'] == 'DeclStmt':
                         for d in e['decls']:
